@@ -71,8 +71,8 @@ COVER_SCORES = [1.0, 0.0, NEG_INF, 0.0, 2.5, 1.0]
 
 BOUNDS = {
     "quick": {
-        "cover": {"plates": "1..4", "rows_per_plate": "1..2", "variants": ["mix0", "mix2", "alt"],
-                  "variants_at_4_plates": ["mix0", "alt"], "n_chunks": "1..P+2",
+        "cover": {"plates": "1..4", "rows_per_plate": "1..2", "variants": ["mix0", "mix2", "alt", "sgl"],
+                  "variants_at_4_plates": ["mix0", "alt", "sgl"], "n_chunks": "1..P+2",
                   "batches": "None + every subset of plate ids"},
         "select": {"plates": "1..3", "variants": ["alt"], "variants_at_1_2_plates": ["alt", "mix2"], "n_chunks": "1..4", "orders": "all (<= 4!)",
                    "scores": "menu {-inf,0,1,2.5} in every way", "policies": "none, k-per-sample k=1,2, stub allowing every subset of the candidates (+ all ids, + non-candidates)"},
@@ -125,8 +125,11 @@ POOL = [
     ("s0", C0, A1),   # control first
     ("s0", A2, B1),   # other dose
     ("s1", B1, A1),
+    ("s0", C0, B1),   # control first, other drug
+    ("s0", A2, C0),   # single agent at the second dose
 ]
 TPOOL = [(A1, B1), (A1, B1), (A1, B1), (B1, A1), (A1, C0), (A2, B1)]
+SPOOL = [(A1, C0), (C0, B1), (A2, C0), (A1, B1), (B1, A1), (C0, C0), (A2, B1), (C0, A1)]
 
 
 class HarnessAssumption(Exception):
@@ -144,6 +147,9 @@ def build_rows(sizes, variant, obs):
             elif variant == "alt":
                 s = f"s{j % 2}"
                 t1, t2 = TPOOL[g % len(TPOOL)]
+            elif variant == "sgl":  # one sample; single-agent / control-first / vehicle rows next to combinations
+                s = "s0"
+                t1, t2 = SPOOL[g % len(SPOOL)]
             elif variant == "blk":
                 s = "s0" if j < 2 else "s1"
                 t1, t2 = TPOOL[g % len(TPOOL)]
@@ -874,9 +880,9 @@ def plan(tier, seed):
     max_p = 4 if quick else 5
     for P in range(1, max_p + 1):
         if quick:
-            variants = ["mix0", "mix2", "alt"] if P <= 3 else ["mix0", "alt"]
+            variants = ["mix0", "mix2", "alt", "sgl"] if P <= 3 else ["mix0", "alt", "sgl"]
         else:
-            variants = ["mix0", "mix2", "mix4", "alt", "blk"] if P <= 4 else ["mix0", "mix2", "alt"]
+            variants = ["mix0", "mix2", "mix4", "alt", "blk", "sgl"] if P <= 4 else ["mix0", "mix2", "alt", "sgl"]
         lay = [list(s) for s in itertools.product((1, 2), repeat=P)]
         for v in variants:
             if P <= 3:
